@@ -457,4 +457,34 @@ def _le(ctx, a, b):
     return ctx.Or(a[0] < b[0], ctx.And(a[0] == b[0], a[1] <= b[1]))
 
 
-OBLIGATIONS = [C11a, C11b, C11d, C11f]
+from jedi.api import classes as jclasses  # noqa: E402
+
+
+class C11e(Obligation):
+    id = 'C11.e'
+    title = 'docstring(): raw => the docstring itself; otherwise the signature line(s), a blank line and the docstring'
+    pattern = 'P1 (signature text and raw docstring are symbolic strings)'
+    assumptions = ('the raw docstring and the rendered signature text are arbitrary symbolic strings (<=6 chars)',)
+
+    def scenario(self, ctx, cfg):
+        doc = ctx.str('raw_docstring', maxlen=6)
+        sig = ctx.str('signature_text', maxlen=6)
+        raw = ctx.flag('raw')
+        n = jclasses.BaseName.__new__(jclasses.BaseName)
+        n._pysym_holder = True
+        n._name = Obj(tag='plain-name')
+        n._get_docstring = lambda: doc
+        n._get_docstring_signature = lambda: sig
+        out = ctx.call(jclasses.BaseName.docstring, n, raw=raw)
+        ctx.check(out.exc is None, 'never raises')
+        if out.exc is not None:
+            return
+        if raw:
+            ctx.check(out.value == doc, 'raw=True: exactly the docstring of the definition')
+        else:
+            both = ctx.And(ctx.len(sig) > 0, ctx.len(doc) > 0)
+            ctx.check(ctx.implies(both, out.value == sig + '\n\n' + doc), 'signature, blank line, docstring')
+            ctx.check(ctx.implies(ctx.Not(both), out.value == sig + doc), 'only one of them: that one alone')
+
+
+OBLIGATIONS = [C11a, C11b, C11d, C11e, C11f]
